@@ -27,7 +27,7 @@ CHECKS = {
     "C10": {
         "technique": "runtime monitoring: the real parser's tree for every enumerated operator chain compared with an independent precedence climber; differing shapes adjudicated by running chain and standard parenthesisation in the real interpreter on assignment vectors; literal nodes compared with the rule table",
         "text": "Bounded-exhaustive: every chain with at most 3 (quick) / 4 (thorough) binary and unary operators over distinct variables, each also with parentheses around every contiguous sub-chain, plus random chains up to 6 binary operators; decimal/&H/&O literals (all 65536 16-bit values in the thorough tier, sampled 32-bit values, boundaries, leading zeros, lower case, after unary minus) and fractional literals with and without #.",
-        "note": "Shape comparison uses the public Expression enum; value adjudication compares the implementation with itself, so it cannot see a grouping error that is value-equivalent on all 32 vectors; the property's own precedence table is the reference. Fractional and # literals at the whole-number type boundaries are checked plain and after a unary minus; one known finding (KF-C10-1: -2147483648.0# becomes a LONG) is pinned.",
+        "note": "Shape comparison uses the public Expression enum; value adjudication compares the implementation with itself, so it cannot see a grouping error that is value-equivalent on all 32 vectors; the property's own precedence table is the reference. Fractional and # literals at the whole-number type boundaries are checked plain and after a unary minus; SINGLE literals with 25-32 digits next to the midpoint of two SINGLEs must denote the nearer one; one known finding (KF-C10-1: -2147483648.0# becomes a LONG) is pinned.",
         "design": "DESIGN.md section 2 C10",
     },
     "C15": {
@@ -83,7 +83,7 @@ CHECKS["C14"] = {
 CHECKS["C16"] = {
     "technique": "runtime monitoring: bytes captured on stdout, the printer device and the written files compared with a shadow column model (one column counter per device) over random interleaved PRINT histories and exhaustive boundary sets",
     "text": "Histories of PRINT/LPRINT/PRINT # statements interleaved over screen, LPT1 and two files (numbers of all five types and signs, strings with embedded CR/LF, separators in every position), the exhaustive column-boundary set (start column 0..30 x width 0..16 x separator x device) and PRINT USING with all format strings up to length 4 (quick) / 5 (thorough) over {# , . \\ space ! a} plus random longer ones.",
-    "note": "Histories also contain FUNCTIONs (ordinary and STATIC) that print on another device in the middle of a PRINT list, and items that fail under ON ERROR RESUME NEXT (what was written stays, the next PRINT continues there). An embedded CR/LF may be written raw or as CR LF; PRINT USING cases outside the model (number wider than the field, commas outside thousands positions, rounding ties) are discarded and counted; LPRINT is observed on the harness's in-memory printer.",
+    "note": "String items contain characters above 127 (one column each); floating negative zeros are printed like any zero; a minus sign next to a thousands separator of a USING field stands directly in front of the number. Histories also contain FUNCTIONs (ordinary and STATIC) that print on another device in the middle of a PRINT list, and items that fail under ON ERROR RESUME NEXT (what was written stays, the next PRINT continues there). An embedded CR/LF may be written raw or as CR LF; PRINT USING cases outside the model (number wider than the field, commas outside thousands positions, rounding ties) are discarded and counted; LPRINT is observed on the harness's in-memory printer.",
     "design": "DESIGN.md section 2 C16",
 }
 CHECKS["C12"] = {
@@ -118,7 +118,7 @@ CHECKS["C04"] = {
 CHECKS["C18"] = {
     "technique": "runtime monitoring: history + executable model - generated histories of file operations run in the real interpreter on a scratch directory, every step reporting its result or ERR code; the report and the directory contents at the end are checked against a model of the store and of the handle table; metamorphic console-vs-file reader comparison",
     "text": "Random histories of 6-30 steps over three handles, five file names (sequential and random-access), a name in a missing directory and the name of a directory, some files pre-existing; steps OPEN (OUTPUT/APPEND/INPUT/RANDOM), PRINT #, LINE INPUT #, INPUT # (string and numeric variables), EOF, CLOSE (one/two/all), KILL, NAME, FIELD, LSET, PUT, GET, about a third violating the protocol (handle in use -> 55, missing file -> 53, past the end -> 62, closed handle / wrong mode -> a file error, FIELD wider than the record -> 50); hostile texts (commas, quotes, blanks, tabs, CR/LF/CRLF mixes, no final newline) are read from the console and from a file by the same INPUT / LINE INPUT sequence and must split identically.",
-    "note": "Not generated because the property does not define them: the same file open on two handles, KILL/NAME of an open file, NAME onto an existing file, GET beyond the file's extent; padding of short FIELD values (blank or NUL) is not judged.",
+    "note": "Also generated: a second FIELD statement on one handle (a second view of the record buffer), numeric as well as string variables in an INPUT # that runs past the end of the file. Not generated because the property does not define them: the same file open on two handles, KILL/NAME of an open file, NAME onto an existing file, GET beyond the file's extent; padding of short FIELD values (blank or NUL) is not judged.",
     "design": "DESIGN.md section 2 C18",
 }
 CHECKS["C11"] = {
